@@ -36,15 +36,26 @@ def show_frame(f):
 
 
 class ApiStub:
-    def __init__(self, log, raise_at=()):
+    """The upper layer.  `raise_at`: frame positions at which the handler fails with an ordinary exception;
+    `base_raise_at`: positions at which it is cancelled (`asyncio.CancelledError` - not an `Exception`: it propagates);
+    `close_at`: positions at which it closes the port from inside the hand-up, as `ZBOSS.close()` does"""
+    def __init__(self, log, raise_at=(), base_raise_at=(), close_at=()):
         self.log = log
         self.raise_at = set(raise_at)
+        self.base_raise_at = set(base_raise_at)
+        self.close_at = set(close_at)
+        self.proto = None
         self.n = 0
 
     def frame_received(self, frame):
         self.log.append("D" + show_frame(frame))
         k = self.n
         self.n += 1
+        if k in self.close_at and self.proto is not None:
+            self.log.append("HANDLER-CLOSES")
+            self.proto.close()
+        if k in self.base_raise_at:
+            raise asyncio.CancelledError()
         if k in self.raise_at:
             raise RuntimeError("handler failure injected at frame %d" % k)
 
@@ -76,7 +87,7 @@ def _ack_bytes(seq):
     return streams.ack(seq)
 
 
-def make(seq=0, transport=True, has_event=False, raise_at=()):
+def make(seq=0, transport=True, has_event=False, raise_at=(), reset_flag=False):
     """A protocol object in the given link state, reached through public entry points only:
     the sequence number by feeding the matching acknowledgements, the transport by `connection_made`
     (and `close` for "gone again"), a pending ACK wait by a real `send` task left waiting."""
@@ -141,7 +152,16 @@ def make(seq=0, transport=True, has_event=False, raise_at=()):
     del log[:]
     api.raise_at = set(raise_at)
     api.n = 0
+    api.proto = p
+    p._verif_api = api
     p._verif_task = task
+    if reset_flag:
+        # what `ZBOSS.reset()` does before it sends the reset request (public property): the receive path and `send`
+        # do not depend on it
+        try:
+            p.reset_flag = True
+        except Exception:
+            pass
     return p, log
 
 
@@ -153,9 +173,17 @@ def _peek(p, name, default=None):
     return getattr(p, name, default)
 
 
-def session(chunks, seq=0, transport=True, has_event=False, raise_at=()):
+def auto_reset_flag(chunks):
+    """a deterministic quarter of all sessions runs with the reset flag raised"""
+    import zlib
+    return zlib.crc32(b"".join(bytes(c) for c in chunks)) % 4 == 0
+
+
+def session(chunks, seq=0, transport=True, has_event=False, raise_at=(), reset_flag=None):
     """Returns (per-chunk logs, final state string, raised-or-None)."""
-    p, log = make(seq, transport, has_event, raise_at)
+    if reset_flag is None:
+        reset_flag = auto_reset_flag(chunks)
+    p, log = make(seq, transport, has_event, raise_at, reset_flag)
     outs = []
     raised = None
     for c in chunks:
